@@ -112,7 +112,23 @@ func runC44(r *Report) {
 	// R44d: what net.SplitHostPort took apart is put together again with net.JoinHostPort (plain
 	// concatenation loses the brackets of an IPv6 literal)
 	nJoin := 0
+	scope := WithAnons(fn)
+	// plus the unexported helpers of the package that ParseURL (or its closures) calls directly
 	for _, f := range WithAnons(fn) {
+		for _, cs := range Sites(f, func(in ssa.Instruction) bool { _, ok := in.(*ssa.Call); return ok }) {
+			h := cs.Call().Common().StaticCallee()
+			if h != nil && h.Blocks != nil && h.Pkg == fn.Pkg && !isExportedName(h.Name()) && h.Parent() == nil && len(CallSites(h, "net.SplitHostPort", "net.JoinHostPort")) > 0 {
+				dup := false
+				for _, g := range scope {
+					dup = dup || g == h
+				}
+				if !dup {
+					scope = append(scope, h)
+				}
+			}
+		}
+	}
+	for _, f := range scope {
 		var parts []ssa.Value
 		for _, s := range CallSites(f, "net.SplitHostPort") {
 			c := s.Instr.(*ssa.Call)
